@@ -48,6 +48,22 @@ add("C04", "model_checking",
     "Trusted: the classification of a press as 'while enabled' (MICR bit and IE at the press, IE still set at the sampling edge); presses in other windows may enter 0 or 1 times; sampling edges are read from the public Signals + wait latch accessor.",
     "DESIGN.md 3/C04")
 
+add("C02", "translation_validation",
+    "translation validation: every program of exhaustively enumerated families is compiled by the real Translator (through both the AST and the text path) and its per-line bytes, image and limits are compared with an independent two-pass reference assembler",
+    "Instruction shapes (every form x operand shape x register), each placed after every prefix sequence (depth 1-3) of a 17-element directive/instruction alphabet with labels before and after every element referenced forward, backward and in mixed case through every referencing instruction form; relative jumps from every address 0..0xEC to every target 0..255; all limit directives; the repository's programs.",
+    "Trusted: REF-PARSE and REF-ASM (encoding table written out from the documented instruction table; label = address of the next byte, case-folded, last definition wins). Programs with backward .ORG or an image > 240 bytes are C06's.",
+    "DESIGN.md 3/C02")
+add("C03", "exploration",
+    "bounded exhaustive enumeration of input strings (grammar-derived sentence products, all short strings over a special-character alphabet, all single-token mutations of a corpus) with a differential oracle: real parser vs. an independent PEG recogniser + AST builder",
+    "For every enumerated input: no panic; accept/reject and error class agree with REF-PARSE; on acceptance the complete AST (lines, instructions, operands, values, labels with case, trimmed comments, header comment) is equal.",
+    "Trusted: REF-PARSE (hand transcription of the documented mrasm language into an own PEG interpreter). Strings outside the enumerated families are outside the verdict.",
+    "DESIGN.md 3/C03")
+add("C06", "exploration",
+    "bounded exhaustive enumeration of accepted programs (every .ORG target after every position, images of every size 0..300 by 7 constructions, the C03 families, token mutations) through parse -> compile -> load under a panic monitor; process-level confirmation with the real binary",
+    "Every accepted text must survive Translator::compile, Machine::load / new_with_program, 12 steps and the byte-code listing; a cross-section is run through the real `2a-emulator verify` / `run` binary (verify exit 0 implies run does not die by panic). Three panics are known findings and are matched only when REF-ASM's layout class explains them.",
+    "Trusted: REF-ASM's layout classification used to key findings (backward .ORG / image > 255 / image 241-255 bytes).",
+    "DESIGN.md 3/C06")
+
 NOT_YET = {}
 
 def main():
